@@ -14,10 +14,16 @@
         kernel(τ) = (c0 + c1 τ + ...) Heaviside(τ)  (impulse response of Σ j! c_j / s^(j+1))
    resp.convsum <kernel c0,..> <x0,x1,...> <dt>                                       -> the Spec's lag-indexed convolution sums
    resp.near <tol> <a0,a1,...> <b0,b1,...>   -> true|false : same length and |a_k - b_k| ≤ tol · max(1, max|b|)
+   lim.eval <py 0|1> <p c0,c1,..> <q c0,c1,..> <x>   -> <direct|zerodiv|nan|inf> <val r | nan | other>
+        which fallback of evaluate()'s inner func applies for p(t)/q(t) at x (py = 1: scalar call) and what it returns
+   flt.run <xbits> <prefix program>          program = x | c:<bits> | add A B | sub A B | mul A B | div A B | neg A
+        -> the bits of the IEEE double the straight-line program gives for the argument with bits xbits
 -/
 import Lcapy.Model.CRat
 import Lcapy.Model.SimStep
 import Lcapy.Model.Response
+import Lcapy.Model.EvalLimit
+import Lcapy.Model.FloatEval
 namespace Lcapy.Driver.C17Sim
 open Lcapy Lcapy.MNA Lcapy.Sim Lcapy.Resp
 
@@ -157,8 +163,44 @@ def polyKernel (cs : List Rat) (t : Rat) : Rat :=
   let body := cs.foldr (fun c acc => c + t * acc) 0
   if t < 0 then 0 else if t = 0 then body / 2 else body
 
+def parseFE : Nat → List String → Option (FloatEval.FE × List String)
+  | 0, _ => none
+  | _ + 1, [] => none
+  | fuel + 1, tok :: rest =>
+    let bin (mk : FloatEval.FE → FloatEval.FE → FloatEval.FE) : Option (FloatEval.FE × List String) := do
+      let (a, r1) ← parseFE fuel rest
+      let (b, r2) ← parseFE fuel r1
+      some (mk a b, r2)
+    match tok.splitOn ":" with
+    | ["x"] => some (.x, rest)
+    | ["c", b] => b.toNat?.map (fun n => (FloatEval.FE.c n.toUInt64, rest))
+    | ["add"] => bin .add
+    | ["sub"] => bin .sub
+    | ["mul"] => bin .mul
+    | ["div"] => bin .div
+    | ["neg"] => do let (a, r1) ← parseFE fuel rest; some (.neg a, r1)
+    | _ => none
+
+def pathStr : EvalLimit.Path → String
+  | .direct => "direct" | .zeroDivLimit => "zerodiv" | .nanLimit => "nan" | .infSimplifyLimit => "inf"
+
+def outStr : Evaluate.Out → String
+  | .val v => s!"val {ratToStr v}"
+  | .nan => "nan"
+  | .other => "other"
+
 def handle (toks : List String) : Option String :=
   match toks with
+  | ["lim.eval", py, p, q, x] => some <|
+      match parseList p, parseList q, parseRat x with
+      | some p, some q, some x =>
+        let r := EvalLimit.evalRatfun (py == "1") p q x
+        s!"{pathStr r.1} {outStr r.2}"
+      | _, _, _ => "bad-op"
+  | "flt.run" :: xb :: prog => some <|
+      match xb.toNat?, parseFE (prog.length + 1) prog with
+      | some xb, some (e, []) => toString (FloatEval.run e xb.toUInt64).toNat
+      | _, _ => "bad-op"
   | "sim.run" :: meth :: grid :: "|" :: rest => some <|
       match parseMeth meth, parseList grid, (splitOnTok "|" rest).mapM parseCpt with
       | some meth, some grid, some raw =>
